@@ -89,8 +89,24 @@ class PRODEngine(Engine):
         w = self.world
         self.timeout = config["timeout_ms"] / 1000.0
         self.tnames = [t["name"] for t in config["topics"]]
+        eng = self
+        self.selections = {}  # topic -> [(partition list, result, partitioner instance id, evseq)]
+
+        # the partitioner is a documented extension point (partitioner_class): observing subclasses record every selection the producer asks for
+        class ObservedRoundRobin(RoundRobinPartitioner):
+            def partition(self, key, partitions):
+                res = RoundRobinPartitioner.partition(self, key, partitions)
+                eng._selected("rr", self, key, partitions, res)
+                return res
+
+        class ObservedHashed(HashedPartitioner):
+            def partition(self, key, partitions):
+                res = HashedPartitioner.partition(self, key, partitions)
+                eng._selected("hashed", self, key, partitions, res)
+                return res
+
         kw = dict(req_acks=config["acks"], max_req_attempts=config["max_attempts"], retry_interval=config["retry_interval"],
-                  codec=config["codec"] or None, partitioner_class=HashedPartitioner if config["hashed"] else RoundRobinPartitioner)
+                  codec=config["codec"] or None, partitioner_class=ObservedHashed if config["hashed"] else ObservedRoundRobin)
         if config["batch"]:
             kw.update(batch_send=True, batch_every_n=config["every_n"], batch_every_b=config["every_b"], batch_every_t=config["every_t"])
         self.t0 = w.now
@@ -243,6 +259,38 @@ class PRODEngine(Engine):
         return [op]
 
     # ------------------------------------------------------------------ observation
+    def _selected(self, kind, inst, key, partitions, res):
+        """C18 through the producer (which keeps one partitioner per topic and passes the current partition list): record only"""
+        from afkak.partitioner import HashedPartitioner
+
+        L = tuple(partitions)
+        seq = self.selections.setdefault(inst.topic, [])
+        seq.append((L, res, id(inst), self.evseq))
+        if res not in L:
+            self.note("C18.in-range", "C18.in-range/through-producer", "partitioner for %r returned %r, not a member of the supplied list %r" % (inst.topic, res, L))
+            return
+        if kind == "hashed":
+            want = HashedPartitioner("other", list(L)).partition(key, list(L))
+            if res != want:
+                self.note("C18.hashed-java-colocation", "C18.hashed/through-producer-depends-on-more-than-key-and-list", "key %r over %r selected %r; a fresh partitioner selects %r" % (key, L, res, want))
+            return
+        n = len(L)
+        if list(L) != sorted(L) or n == 0:
+            return
+        seg = []
+        for x in reversed(seq):
+            if x[0] != L:
+                break
+            seg.append(x)
+        if len(seg) >= n:
+            window = [x[1] for x in seg[:n]]
+            self.nt.add("producer-round-robin-window-checked") if len(seg) > n else None
+            if any(m[1] == "metadata" and m[0] > seg[min(len(seg), 2 * n) - 1][3] for m in self.other_writes):
+                self.nt.add("round-robin-window-across-metadata-reload")
+            if sorted(window) != sorted(L):
+                self.note("C18.rr-fair-window", "C18.rr-fair-window/through-producer", "topic %r: the last %d consecutive selections over the unchanged list %r are %r (oldest first) - not each partition once%s" % (
+                    inst.topic, n, L, list(reversed(window)), "; the producer used %d partitioner instances for this topic" % len(set(x[2] for x in seq)) if len(set(x[2] for x in seq)) > 1 else ""))
+
     def _on_write(self, conn, frame):
         try:
             req = rp.parse_request(frame)
@@ -571,8 +619,12 @@ class PRODEngine(Engine):
         if not w.pending():
             if (n and cnt >= n) or (b and byt >= b):
                 self.note("C19.dispatch-at-first-moment", "C19.threshold-met-not-dispatched", "no batch in flight, metadata warm, yet sends %r (%d messages, %d bytes) sit in the queue with thresholds n=%r bytes=%r" % ([s.no for s in q], cnt, byt, n, b))
-        if T:
-            r = getattr(self, "_last_inflight_time", self.t0)
+        if T and not w.pending():
+            # (with undelivered network events pending, a dispatch may be under way - e.g. waiting for a metadata reply - without
+            # having written a produce request yet: the verdict waits until the harness has delivered them)
+            # the in-flight batch the wait is counted from: last instant a batch was seen in flight, and no earlier than the last
+            # transmission (a batch written and resolved within one event - acks=0 - is never *seen* in flight)
+            r = max([getattr(self, "_last_inflight_time", self.t0)] + [bt["dispatch_time"] for bt in self.batches] + [x["call_time"] for x in self.rounds[-3:]])
             for s in q:
                 if w.now > max(s.time, r) + T + 1e-9:
                     self.note("C19.time-limit", "C19.waited-longer-than-one-period", "send #%d queued at t=%.3f (last batch resolved t=%.3f) is still not dispatched at t=%.3f with every_t=%r" % (s.no, s.time, r, w.now, T))
@@ -729,6 +781,10 @@ class PRODEngine(Engine):
             if s.watch is None:
                 continue
             if s.watch.extra_attempts:
+                if s.cancelled_at is not None:
+                    # C19: "cancelling later only detaches the caller" - the producer must skip the cancelled send, not fire it again
+                    # (the AlreadyCalledError that raises inside the producer abandons whatever it was doing for the other sends)
+                    self.note("C19.cancel-later-detaches", "C19.cancelled-send-fired-again", "send #%d was cancelled by its caller after dispatch; the producer later tried to fire its Deferred again: %r" % (s.no, s.watch.extra_attempts))
                 self.note("C01.exactly-once", "C01.fired-twice", "send #%d: Deferred fired again: %r" % (s.no, s.watch.extra_attempts))
             if s.watch.state != "pending" and not s.checked:
                 s.checked = True
